@@ -134,7 +134,8 @@ PROPS["C01"] = {
     "counter_floors": {"quick": {"membership_checks_nontop": 200000, "programs_with_loops": 1500}},
     "assumptions": _FWD_ASSUME,
 }
-PROPS["C02"] = dict(PROPS["C01"])
+import copy
+PROPS["C02"] = copy.deepcopy(PROPS["C01"])
 PROPS["C02"].update({
     "technique": "runtime monitor joining the assertion checker's verdict table (per debug-info id) with the concrete outcomes of reference-interpreter executions",
     "level_text": "assertions synthesised from concrete runs ('nearly true') are placed in generated programs; the verdicts of the real intra_checker/assert_property_checker are joined with what concrete executions observed: a SAFE verdict with a failing execution or an UNREACHABLE verdict with any arrival is a violation. Held on the executions run.",
@@ -224,20 +225,22 @@ ENGINES += [
 ]
 PROPS["C06"] = {
     "technique": "client-defined value types driven through the real fixpoint engine: finite-state set values against brute-force reachability (exact least solution), and an offline checker over the recorded log of lattice calls (no extrapolation before widening_delay, join-only fixpoint)",
-    "level_text": "every digraph with <=3 nodes (12 configurations each) and every 4-node digraph (4 configurations) over a 2-state space, plus random graphs up to 9 nodes over up to 6 states, with random transition relations, admissible alternative start blocks, assumption maps, all widening-delay/descending/threshold settings: get_pre/get_post must equal the reachable state sets exactly. 2-3 thousand single-loop programs with a logging interval value: the log of lattice calls shows no widening before the delay and loops that stabilise within the delay get the join-only fixpoint. Held on the cases run.",
+    "level_text": "every digraph with <=3 nodes (12 configurations each) and every 4-node digraph (4 configurations) over a 2-state space, plus random graphs up to 9 nodes over up to 6 states, with random transition relations, admissible alternative start blocks, assumption maps, all widening-delay/descending/threshold settings: get_pre/get_post must equal the reachable state sets exactly. 2-3 thousand single-loop programs and 4 thousand two-level nested loop programs (the inner loop is re-entered at every outer iteration; the delay is counted per visit) with a logging interval value: the log of lattice calls shows no widening before the delay and loops that stabilise within the delay get the join-only fixpoint. Held on the cases run.",
     "level_note": "the start block is drawn among the CFG entry and the blocks listed in the WTO outside every component; blocks not reachable from the start are not compared",
     "rule": "finite: a case is (graph, relations, start, initial set, assumptions, parameters), non-trivial = the WTO has a component; logged: a case is one loop program + parameters; distinct = hash of the printed case",
     "abort_is_violation": True,
     "jobs": {
         "quick": [{"name": "finite_exh", "bin": "engine", "engine": "finite_exh", "cases": "all"},
                   {"name": "finite", "bin": "engine", "engine": "finite", "cases": 60000},
-                  {"name": "logged", "bin": "engine", "engine": "logged", "cases": 3000}],
+                  {"name": "logged", "bin": "engine", "engine": "logged", "cases": 3000},
+                  {"name": "nested", "bin": "engine", "engine": "nested", "cases": 4000}],
         "thorough": [{"name": "finite_exh", "bin": "engine", "engine": "finite_exh", "cases": "all"},
                      {"name": "finite", "bin": "engine", "engine": "finite", "cases": 3000000},
-                     {"name": "logged", "bin": "engine", "engine": "logged", "cases": 100000}],
+                     {"name": "logged", "bin": "engine", "engine": "logged", "cases": 100000},
+                     {"name": "nested", "bin": "engine", "engine": "nested", "cases": 100000}],
     },
     "floor": {"quick": 30000, "thorough": 500000},
-    "counter_floors": {"quick": {"cases_alternative_start": 5000, "cases_with_assumptions": 5000, "join_only_fixpoints_compared": 300, "extrapolation_calls_checked": 3000}},
+    "counter_floors": {"quick": {"cases_alternative_start": 5000, "cases_with_assumptions": 5000, "join_only_fixpoints_compared": 300, "extrapolation_calls_checked": 3000, "nested_cases_inner_loop_reentered": 1500, "nested_join_only_fixpoints_compared": 1000}},
     "assumptions": ["the oracle is a naive chaotic iteration over (block, state) pairs written in the harness"],
 }
 
@@ -317,4 +320,19 @@ PROPS["C12"] = {
         "checked-int64 weights (sdbm_safe) and plain int64 weights get constants below 2^39 because larger ones are refused by design; bignum weights and intervals get up to 2^70",
         "the least upper bound of the domain is the pointwise maximum of the tightly closed reference restricted to the language",
     ],
+}
+
+ENGINES[3]["serves_properties"] = ["C01", "C02", "C03", "C04", "C05", "C09", "C10", "C11", "C12", "C14"]
+PROPS["C14"] = {
+    "technique": "reference-model runtime monitor on array programs: the real forward analyzer runs generated array-heavy CrabIR over every array domain (smashing and adaptive over 5 bases, under powerset and region wrappers); after every array statement of every concrete execution the abstract state recomputed from the reported invariant must not be bottom and must contain the loaded value",
+    "level_text": "array-heavy programs (initialisations, weak stores at constant and symbolic indices, strong stores on single-cell arrays, range stores with constant and symbolic upper end, array copies, loads; inside loops so that joins and widenings act on array contents) with uniform element size, over random array_adaptive parameters (smashable, smash at non-zero offset, cell limits 0..64, array size limits 1..512): 25 concrete executions per program; after each array statement is_bottom and, for loads, at()/operator[]/exports/entailment/point-meet of the receiving variable are checked; block entry/exit membership as for C01. Held on the executions run.",
+    "level_note": "uniform element size 4 (the documented word-level assumption); reads of never-written cells are out of model and cut; arrays are not function parameters here",
+    "rule": "a case is (array program, array domain, parameters); non-trivial = a loop or branch and at least one membership check against a non-top invariant; distinct = hash of program + configuration",
+    "jobs": {
+        "quick": [{"name": "arrays", "bin": "crabv", "engine": "fwd", "cases": 3000, "params": {"dom": "arrays", "focus": "arrays"}, "shards": 64}],
+        "thorough": [{"name": "arrays", "bin": "crabv", "engine": "fwd", "cases": 250000, "params": {"dom": "arrays", "focus": "arrays"}, "shards": 2048}],
+    },
+    "floor": {"quick": 1500, "thorough": 100000},
+    "counter_floors": {"quick": {"array_statement_checks": 25000, "array_loads_checked": 2500}},
+    "assumptions": _FWD_ASSUME + ["a strong update is only requested for arrays that have exactly one cell (the client-side contract of is_strong_update)"],
 }
